@@ -538,7 +538,8 @@ def file_term(case, fh):
     hdrs = [(0, fh.content(0, 512))]
     if case["kind"] == "hosted" and case["footer"]:
         hdrs.append((case["fsize"] - 1024, fh.content(case["fsize"] - 1024, 512)))
-    hfun = "fun o => " + "".join(f"if o =? {Z(o)} then {hdr_term(b)} else " for o, b in hdrs) + "[]"
+    # (a table rather than nested ifs: elaborating `if` around long list literals under several lets is exponential in Coq)
+    hfun = "hlook [" + "; ".join(f"({Z(o)}, {hdr_term(b)})" for o, b in hdrs) + "]"
     tab = words(case)
     u32 = dict(tab) if case["kind"] != "sesparse" else {}
     u64 = dict(tab) if case["kind"] == "sesparse" else {}
@@ -575,6 +576,7 @@ class VmdkSuite(Suite):
     preamble = ("From Coq Require Import ZArith List.\nImport ListNotations.\nOpen Scope Z_scope.\n"
                 "From DH Require Import Base.Plan Base.Table Model.Vmdk.\n"
                 "Definition look (l : list (Z * Z)) (o : Z) : Z := match assoc_z l o with Some v => v | None => 0 end.\n"
+                "Fixpoint hlook (l : list (Z * list Z)) (o : Z) : list Z := match l with [] => [] | (k, v) :: r => if k =? o then v else hlook r o end.\n"
                 "Definition sp_info (sp : sparse) := [if sp_se sp then 1 else 0; sp_flags sp; sp_capacity sp; "
                 "sp_grain_size sp; sp_gd_size sp; sp_gt_size sp; sp_gd_off sp].\n"
                 "Definition run4 (r : run) := let '(a, b, c, d) := r in [a; b; c; d].\n"
